@@ -15,6 +15,7 @@ from ..lib.core import Failure, Disagreement
 from ..lib.storeimpl2 import Impl2
 from ..lib.storeimpl import Impl
 from ..extract import copyshape as _ex
+from ..extract import handlesites as _hs
 
 PROP = "C20"
 LEAN_MODULE = "NixModel.Props.C20"
@@ -37,6 +38,7 @@ THEOREMS = [
     "Nix.C20.section_copy_any_handle",
     "Nix.C20.container_handles_owned",
     "Nix.C20.path_addressing_depends_on_handle",
+    "Nix.C20.handle_sites_owned_or_section",
     "Nix.C20.copy_complete",
     "Nix.C20.internal_links",
     "Nix.C20.ids_kept",
@@ -84,6 +86,10 @@ ASSUMPTIONS = [
     "uuid4 ids are drawn from an abstract fresh supply (disjoint supplies for the two files)",
     "(T) harness/extract/copyshape.py accepts only the statement forms listed in its docstring (anything else: broken "
     "tie); `grp.copy(source=…, dest=…, name=…, shallow=…)` is h5py's Group.copy, read as the modelled object copy",
+    "(T) harness/extract/handlesites.py lists the constructor calls of entity classes in nixio/*.py; that the parent "
+    "expressions denote what HandleSite.owned reads them as (a plain Container's parent owns its entries, "
+    "LinkContainer._itemstore._parent is the block, a multi-tag's parent is its block, a feature's grandparent is the "
+    "block) is checked by the oracle's copies with handles of every provenance, not proved",
     "the error class of a refused append / del / membership test with a Feature *object* as key, and of a refused role "
     "assignment (x.metadata = <Feature> …), is compared as 'refused' only (a Feature whose data is gone raises "
     "RuntimeError from its __str__ inside util.is_uuid / while the TypeError message is formatted, the shared model "
@@ -108,7 +114,9 @@ MANIFEST = {
                   "source graph, source node, destination file, both id policies, same-file and cross-file. Handles: which "
                   "object an entry point copies given the handle it is called with (Store/CopyHandle.lean: the source named "
                   "by the handle's HDF5 object - copy_section, every handle - or by a path below the handle's parent - the "
-                  "other entry points, every handle whose parent owns the object). Tied to the code (a) by an ast "
+                  "other entry points, every handle whose parent owns the object; Generated/HandleSites.lean: every "
+                  "constructor call of an entity class constructs the handle with the owning parent, or hands out a Section). "
+                  "Tied to the code (a) by an ast "
                   "translator that renders H5Group.copy (rename, id regeneration, guards of the id visitor) and the "
                   "eight copy entry points as data, with theorems that the interpretation of the generated shapes is the "
                   "model for all arguments (an edited guard / flag breaks lake build on a named theorem), and (b) by "
@@ -136,8 +144,12 @@ KNOWN_SITES = (KNOWN_STALE,)
 
 def extract(repo):
     """(T) the shape of H5Group.copy (rename, id regeneration, guards of the id visitor) and of the eight copy entry
-    points -> NixModel/Generated/CopyShape.lean; the *_source* theorems quantify over the generated values"""
-    return _ex.extract(repo)
+    points (incl. how each names the source of the HDF5 copy) -> NixModel/Generated/CopyShape.lean; every call that
+    constructs an entity handle, with its parent expression -> NixModel/Generated/HandleSites.lean; the *_source*,
+    *_handle* and handle_sites_* theorems quantify over the generated values"""
+    files = dict(_ex.extract(repo))
+    files.update(_hs.extract(repo))
+    return files
 UUID_RE = re.compile(r"^[0-9a-f]{8}-[0-9a-f]{4}-4[0-9a-f]{3}-[89ab][0-9a-f]{3}-[0-9a-f]{12}$")
 
 
@@ -149,8 +161,30 @@ COPY_KINDS = ["block", "data_array", "data_frame", "tag", "multi_tag", "section"
 CNAME = {"data_array": "data_arrays", "data_frame": "data_frames", "tag": "tags", "multi_tag": "multi_tags"}
 
 
+def kind_of_handle(ent):
+    return {nixio.Block: "block", nixio.DataArray: "data_array", nixio.DataFrame: "data_frame", nixio.Tag: "tag",
+            nixio.MultiTag: "multi_tag", nixio.Section: "section", nixio.Property: "property"}.get(type(ent))
+
+
 class ImplF(Impl):
-    """the shared one-file runner plus `Block.create_data_frame` (C20's histories copy data frames too)"""
+    """the shared one-file runner plus `Block.create_data_frame` (C20's histories copy data frames too). While a copy
+    is being made (`subst` = a random source) an entity found by its path is replaced, in 60% of the cases, by another
+    handle of the same HDF5 object (`handle_catalogue`: fetched through a group, a tag, a metadata link, by id …): the
+    model copies the *object*, whatever handle the implementation is given"""
+    subst = None
+    subst_counts = None
+
+    def nav(self, path):
+        ent = Impl.nav(self, path)
+        rng = self.subst
+        if rng is not None and rng.random() < 0.6:
+            kind = kind_of_handle(ent)
+            if kind is not None:
+                label, h = other_handle(rng, handle_catalogue(self.f, [kind]), ent, 0.0)
+                c = provenance_class(label)
+                self.subst_counts[c] = self.subst_counts.get(c, 0) + 1
+                return h
+        return ent
 
     def _run(self, op):
         if op[0] == "create_frame":
@@ -166,11 +200,24 @@ class ImplF(Impl):
 class Impl20(Impl2):
     """two-file runner with data frames: creation and `create_data_frame(copy_from=…)`"""
 
-    def __init__(self, path0, path1, literal_uuid_names=()):
+    def __init__(self, path0, path1, literal_uuid_names=(), rng=None):
         self.files = [ImplF(path0, literal_uuid_names), ImplF(path1, literal_uuid_names)]
         self.cur = 0
+        self.rng = rng
+        self.handles = {}
+        for f in self.files:
+            f.subst_counts = self.handles
 
     def _copy(self, op):
+        for f in self.files:
+            f.subst = self.rng
+        try:
+            return self._copy_with(op)
+        finally:
+            for f in self.files:
+                f.subst = None
+
+    def _copy_with(self, op):
         if op[0] == "copy_into" and op[2] == "data_frame":
             _, dp, what, sf, sp, name, keep = op
             blk = self.impl.nav(dp)
@@ -400,7 +447,7 @@ class Gen20(storegen2.Gen2):
 
 def run_history20(ctx, rng, steps, tag):
     p0, p1 = ctx.tmpfile("c20-%s-0.nix" % tag), ctx.tmpfile("c20-%s-1.nix" % tag)
-    impl = Impl20(p0, p1, literal_uuid_names=(storegen.LIT_UUID,))
+    impl = Impl20(p0, p1, literal_uuid_names=(storegen.LIT_UUID,), rng=random.Random(rng.random()))
     gen = Gen20(rng, impl, "links")
     try:
         for k in range(steps):
@@ -419,6 +466,7 @@ def run_history20(ctx, rng, steps, tag):
     finally:
         impl.close()
         impl.remove()
+    gen.stats["handles"] = dict(impl.handles)
     return gen.ops, gen.outs, gen.stats
 
 
